@@ -49,7 +49,12 @@ partial def loop (run : String → String → CaseResult) (h : IO.FS.Stream) (li
     | [a, b] => (a, b)
     | [a] => (a, "")
     | _ => ("", "")
-  let r := run inp obs
+  -- a Go panic that escaped the code under test (or a case that never returned) is a failing case of
+  -- whatever property the suite serves, not a malformed line
+  let crashed := obs == "PANIC" || obs == "HANG"
+  let r := if crashed then
+      ({ model := "-", agree := false, stmtModel := true, stmtImpl := false } : CaseResult)
+    else run inp obs
   let out ← IO.getStdout
   if r.bad then out.putStrLn s!"B {lineNo} {inp}"
   else do
